@@ -636,7 +636,10 @@ func acceptScenarios(tier string) (scs, slow []engine.Scenario) {
 		}
 	}
 	scs = append(scs, familyT(), familyBigT(), familyScale(ring.Standard), familyScale(ring.ConjugateInvariant))
-	// hang-prone literals last: each gets its own scenario so that a spinning call delays nothing else
+	// Hang-prone literals last, each in its own scenario. First the out-of-domain distributions (they run in child
+	// processes: a hanging child costs the parent one horizon and leaves nothing behind), then — at the very end of the
+	// scenario list, so that each is the last scenario of a different worker — the calls that spin inside the worker
+	// itself (the leaked goroutine keeps burning that worker's only CPU).
 	for _, s := range []scheme{sRLWE, sBGV, sCKKS} {
 		if s == sRLWE || tier == "thorough" { // bgv and ckks hand Xs/Xe to the same rlwe code
 			for _, d := range distCases(32) {
@@ -645,6 +648,8 @@ func acceptScenarios(tier string) (scs, slow []engine.Scenario) {
 				}
 			}
 		}
+	}
+	for _, s := range []scheme{sRLWE, sBGV, sCKKS} {
 		slow = append(slow, familyLogNGen(s, 63))
 		if s == sRLWE || tier == "thorough" {
 			slow = append(slow, familyNthRootHuge(s, 63), familyNthRootHuge(s, 64), familyNthRootHuge(s, 127))
